@@ -384,9 +384,20 @@ def gen_tree_case(rng):
             idx = rng.sample(range(len(TYPE_TABLE)), rng.randrange(1, 5))
             spec.append("t:" + ",".join("%d=%s" % (i, enc2(TYPE_TABLE[i])) for i in idx))
         if "c" in mode:
-            if rng.random() < 0.7:
-                vals = rng.sample([-10, -2, -1, 0, 1, 2, 9, 10, 11, 100, 20, 3], rng.randrange(1, 6))
+            k = rng.random()
+            if k < 0.4:
+                vals = rng.sample([-10, -2, -1, 0, 1, 2, 9, 10, 11, 100, 20, 3, -5, 12, -100, -2**63, 2**63 - 1, -(2**63) + 1],
+                                  rng.randrange(1, 7))
                 spec.append("c:i:" + ",".join("%d=%s" % (v, enc2(str(v))) for v in vals))
+            elif k < 0.55:
+                vals = rng.sample([-2**127, 2**127 - 1, -1, 0, 1, -10, 10, -9, -2**64, 2**64, -11], rng.randrange(1, 6))
+                spec.append("c:j:" + ",".join("%d=%s" % (v, enc2(str(v))) for v in vals))
+            elif k < 0.7:
+                vals = rng.sample([-128, 127, -1, 0, 1, -10, 10, -9, 9, -100, 100, -2], rng.randrange(1, 6))
+                spec.append("c:k:" + ",".join("%d=%s" % (v, enc2(str(v))) for v in vals))
+            elif k < 0.8:
+                vals = rng.sample([0, 1], rng.randrange(1, 3))
+                spec.append("c:b:" + ",".join("%d=%s" % (v, "true" if v else "false") for v in vals))
             else:
                 vals = rng.sample([ord("a"), ord("Z"), ord("1"), ord("9"), 0xE9, 0x4E2D, ord("_"), ord("b")], rng.randrange(1, 5))
                 spec.append("c:c:" + ",".join("%d=%s" % (v, enc2(chr(v))) for v in vals))
@@ -574,15 +585,28 @@ def streams(tier, rng):
         if any(t.startswith("B;") and not t.endswith(";-") for t in toks):
             hist_tree["with-args"] += 1
         attr = rng.choice(ATTRS)
+        k = rng.random()
+        if k < 0.5:
+            flt = "F:-"
+        else:
+            # drop the paths containing some display name / argument / module of this forest
+            pool = []
+            for t in toks:
+                f = t.split(";")
+                pool.append(f[3])
+                if f[0] == "B" and f[8] != "-":
+                    pool.extend(f[8].split("=", 1)[1].split(","))
+            flt = "F:" + rng.choice(pool + ["%3A%3Ab", "1", "crate%3A%3Am"])
+            hist_tree["with-filter"] = hist_tree.get("with-filter", 0) + 1
         for rev in (0, 1):
-            tree_cases.append(f"{attr} {rev} " + " ".join(toks))
+            tree_cases.append(f"{attr} {rev} {flt} " + " ".join(toks))
 
     # the (listed or to-be-listed) known finding goes last, so that a new failure is reported first
     kf = [c for c in tree_cases if ";-1x;" in c and "c:i:-2=-2,-1=-1" in c]
     tree_cases = [c for c in tree_cases if c not in kf] + kf
 
     def nt_tree(c, m):
-        return len(c.split(" ")) >= 5 and not m.startswith("panic")
+        return len(c.split(" ")) >= 5 and "panic" not in m
 
     out = [
         Stream("natural-order", "nat", nat, nontrivial=nt_nat, hist=hist_nat),
